@@ -975,3 +975,210 @@ pub fn sets(a: &Args, rep: &mut Report) {
         }
     }
 }
+
+
+// ------------------------------------------------------------------------------------------
+// setfault (C07): one-shot panics in Hash / Eq / closures during HashSet calls
+// ------------------------------------------------------------------------------------------
+
+type FT = Tr<true>;
+
+fn fault_set(contents: &BTreeSet<u64>, bh: Bh, phase: u64, seed: u64) -> SetMon<FT> {
+    let (set, _) = build_set::<FT>(contents, bh, phase, &mut Rng::new(seed));
+    let mut mon: SetMon<FT> = SetMon::new(usize::MAX, bh);
+    mon.model = set.iter().map(|t| (t.val(), t.id())).collect();
+    mon.set = set;
+    mon
+}
+
+/// C07 for the set wrappers (replace, take, get_or_insert*, retain, drain_filter have code of
+/// their own): for a deterministic state and a call, a panic is injected at each invocation of
+/// each callback kind in turn; afterwards the set must be self-consistent, must have lost only
+/// what the property allows, and must go on working.
+pub fn setfault(a: &Args, rep: &mut Report) {
+    use Code::*;
+    let sh = Shard::from_args(a);
+    let mut rng = sh.rng(0x5e7fa);
+    let miri = cfg!(miri);
+    for h in 0..sh.n {
+        let mut hr = rng.fork();
+        heartbeat();
+        let n = if miri { *hr.pick(&[3u64, 15]) } else { *hr.pick(&[1u64, 3, 7, 14, 15, 20, 29, 30, 45, 60, 100]) };
+        let phase = hr.below(5);
+        let mode = if n <= 30 { *hr.pick(&[HMode::Good, HMode::SameTag, HMode::Const, HMode::Identity]) } else { *hr.pick(&[HMode::Good, HMode::SameTag, HMode::Identity]) };
+        let bh = Bh::new(mode, hr.below(3));
+        let mut contents = BTreeSet::new();
+        while (contents.len() as u64) < n {
+            contents.insert(hr.below(4 * n + 8));
+        }
+        let seed = hr.next();
+        // candidate calls
+        ledger_reset();
+        let probe = fault_set(&contents, bh, phase, seed);
+        let olds: Vec<u64> = contents.iter().copied().filter(|k| matches!(probe.locate(*k), Location::Old(_))).collect();
+        let mains: Vec<u64> = contents.iter().copied().filter(|k| matches!(probe.locate(*k), Location::Main(_))).collect();
+        let was_split = probe.set.verif_state().old.as_ref().map_or(false, |o| o.table.len > 0);
+        drop(probe);
+        let mut keys: Vec<u64> = vec![4 * n + 100];
+        keys.extend(olds.first());
+        keys.extend(olds.last());
+        keys.extend(mains.first());
+        let mut ops: Vec<Op> = Vec::new();
+        for &k in &keys {
+            for c in [SInsert, SReplace, SRemove, STake, SGet, SContains, SGetOrInsert, SGetOrInsertOwned] {
+                ops.push(Op::k(c, k));
+            }
+            ops.push(Op::k(SGetOrInsertWith, k));
+            ops.push(Op::k(SGetOrInsertWith, k).with_v(1));
+        }
+        for p in [pred_none(), pred_all(), pred_keys(&olds), pred_keys(&mains), pred_mod(2, 0)] {
+            ops.push(Op::new(SRetain).with_list(p.clone()));
+            ops.push(Op::n(SDrainFilter, MAXN).with_list(p.clone()));
+            ops.push(Op::n(SDrainFilter, 1).with_list(p));
+        }
+        ops.push(Op::new(SExtend).with_list(vec![4 * n + 200, *keys.last().unwrap(), 4 * n + 201]));
+        ops.push(Op::n(SReserve, 2 * n + 5));
+        ops.push(Op::new(SShrinkToFit));
+        ops.push(Op::new(SCloneSwap));
+        let per_case = if miri { 1 } else { 8 };
+        for _ in 0..per_case {
+            let op = hr.pick(&ops).clone();
+            let single = op_has_key(op.code);
+            'kinds: for kind in [Cb::Hash, Cb::Eq, Cb::Clone, Cb::Closure] {
+                for idx in 1..=(if miri { 2u64 } else { 24 }) {
+                    ledger_reset();
+                    let _ = take_violations();
+                    let mut mon = fault_set(&contents, bh, phase, seed);
+                    let st0 = mon.set.verif_state();
+                    let before = mon.model.clone();
+                    fuse_begin(Some((kind, idx)));
+                    let r = catch(|| mon.exec(&op));
+                    let (_, fired) = fuse_end();
+                    if !fired {
+                        // fewer than idx callbacks of this kind in the call: next kind
+                        match r {
+                            Ok(Ok(())) => drop(mon),
+                            _ => std::mem::forget(mon),
+                        }
+                        continue 'kinds;
+                    }
+                    rep.evaluations += 1;
+                    rep.bump(&format!("set_faults_{kind:?}"), 1);
+                    let tag = format!("setfault-{}-s{}-i{}-h{}-{}-{kind:?}-{idx}", flavour(), sh.seed, sh.index, h, op.code.name());
+                    let body = vec![("kind", "setfault".to_string()), ("contents", format!("{contents:?}")), ("phase", phase.to_string()), ("hasher", format!("{bh:?}")), ("op", op.encode()), ("fault", format!("{kind:?} #{idx}"))];
+                    let ctx = format!("after a caught panic in {kind:?} callback #{idx} of set {} ({} elements, phase {phase}, split {was_split})", op.encode(), n);
+                    let verdict = (|| -> Result<(), String> {
+                        match &r {
+                            Ok(_) => return Err(format!("an injected panic was swallowed {ctx}")),
+                            Err(p) if !p.contains(FUSE_MSG) => return Err(format!("secondary panic {ctx}: {p}")),
+                            Err(_) => {}
+                        }
+                        let st1 = mon.set.verif_state();
+                        if let Some(o) = &st1.old {
+                            if o.cursor_remaining != o.table.len {
+                                return Err(format!("cached iterator believes {} elements remain, old table holds {} {ctx}", o.cursor_remaining, o.table.len));
+                            }
+                        }
+                        let set = &mon.set;
+                        let items: Vec<(u64, u64)> = catch(|| set.iter().map(|t| (t.val(), t.id())).collect()).map_err(|p| format!("iteration panicked {ctx}: {p}"))?;
+                        if items.len() != mon.set.len() {
+                            return Err(format!("len() = {} but iteration yields {} elements {ctx}", mon.set.len(), items.len()));
+                        }
+                        if mon.set.capacity() < mon.set.len() {
+                            return Err(format!("capacity() {} < len() {} {ctx}", mon.set.capacity(), mon.set.len()));
+                        }
+                        let mut after: BTreeMap<u64, u64> = BTreeMap::new();
+                        for (v, id) in &items {
+                            if after.insert(*v, *id).is_some() {
+                                return Err(format!("value {v} is stored twice {ctx}"));
+                            }
+                            if ledger_state(*id) != Some(Life::Live) {
+                                return Err(format!("the set holds a dropped object (value {v}) {ctx}"));
+                            }
+                            let q = FT::mk(*v);
+                            match mon.set.get(&q) {
+                                Some(t) if t.id() == *id => {}
+                                other => return Err(format!("iterated value {v} is not found by get ({:?}) {ctx}", other.map(|t| t.id()))),
+                            }
+                            if !before.contains_key(v) && !(single && *v == op.k) && !(op.code == SExtend && op.list.contains(v)) && *v < (1 << 50) {
+                                return Err(format!("value {v} appeared out of nowhere {ctx}"));
+                            }
+                        }
+                        let lost: Vec<u64> = before.keys().copied().filter(|v| !after.contains_key(v)).collect();
+                        let removing = matches!(op.code, SRemove | STake);
+                        match kind {
+                            Cb::Hash => {
+                                if single && st0.old.is_none() && st0.main.capacity != st0.main.len {
+                                    let foreign: Vec<u64> = lost.iter().copied().filter(|v| !(removing && *v == op.k)).collect();
+                                    if !foreign.is_empty() {
+                                        return Err(format!("elements {foreign:?} lost {ctx} although no resize was in progress (nothing was being relocated)"));
+                                    }
+                                }
+                                if single && was_split && lost.len() > 2 * st0.r + 1 {
+                                    return Err(format!("{} elements lost {ctx}: a call on one value relocates at most R = {}", lost.len(), st0.r));
+                                }
+                            }
+                            Cb::Eq | Cb::Closure => {
+                                if matches!(op.code, SRetain | SDrainFilter) {
+                                    let pred = Pred::parse(&op.list);
+                                    let wrongly = lost.iter().filter(|v| if op.code == SRetain { pred.eval(**v) } else { !pred.eval(**v) }).count();
+                                    if wrongly > 1 {
+                                        return Err(format!("{wrongly} elements the predicate wanted to keep were lost {ctx}"));
+                                    }
+                                } else if lost.len() > 1 || (lost.len() == 1 && !removing && lost[0] != op.k) {
+                                    return Err(format!("elements {lost:?} lost {ctx} (at most the one handed to the callback may go)"));
+                                }
+                            }
+                            Cb::Clone => {
+                                if !lost.is_empty() {
+                                    return Err(format!("the source lost {lost:?} {ctx}"));
+                                }
+                            }
+                        }
+                        if let Some((_p, m)) = take_violations().into_iter().next() {
+                            return Err(format!("{m} {ctx}"));
+                        }
+                        Ok(())
+                    })();
+                    if let Err(e) = verdict {
+                        rep.direct_violation("C07", &tag, &e, &body);
+                        std::mem::forget(mon);
+                        continue 'kinds;
+                    }
+                    // later operations behave normally
+                    mon.model = mon.set.iter().map(|t| (t.val(), t.id())).collect();
+                    mon.live_base = ledger_live().saturating_sub(mon.model.len());
+                    let mut cont: Option<Viol> = None;
+                    for j in 0..12u64 {
+                        let k2 = if j % 3 == 0 { (1u64 << 40) + j } else { *hr.pick(&keys) };
+                        let c2 = *hr.pick(&[SInsert, SContains, SRemove, SReplace, SGet, STake]);
+                        if let Err(v) = mon.step(&Op::k(c2, k2)) {
+                            cont = Some(v);
+                            break;
+                        }
+                    }
+                    match cont {
+                        Some(v) => {
+                            rep.direct_violation("C07", &tag, &format!("a later call misbehaved {ctx}: {}", v.msg), &body);
+                            std::mem::forget(mon);
+                        }
+                        None => {
+                            if let Err(v) = mon.finish() {
+                                // objects leaked by the interrupted call are allowed, double drops are not
+                                if !v.msg.contains("still live") {
+                                    rep.direct_violation("C07", &tag, &format!("{} {ctx}", v.msg), &body);
+                                }
+                            }
+                            if was_split {
+                                rep.nontrivial.insert(digest([seed, idx, kind as u64, history_digest(std::slice::from_ref(&op))]));
+                            }
+                        }
+                    }
+                }
+            }
+        }
+        if rep.samples.len() < 2 {
+            rep.sample(format!("set of {n} values in phase {phase} ({bh:?}), faults in every callback of randomly chosen calls"));
+        }
+    }
+}
